@@ -198,6 +198,9 @@ pub struct MacroDefinition {
     block: Vec<Token>,
 }
 
+/// How deep macro invocations may be nested
+const MAX_MACRO_DEPTH: usize = 64;
+
 pub struct CodegenContext {
     tree: Arc<ParseTree>,
     options: CodegenOptions,
@@ -220,6 +223,8 @@ pub struct CodegenContext {
     current_scope_nx: SymbolIndex,
 
     next_macro_scope_id: usize,
+    macro_depth: usize,
+    macro_depth_exceeded: bool,
 
     test_elements: Vec<TestElement>,
 
@@ -271,6 +276,8 @@ impl CodegenContext {
             current_scope: IdentifierPath::empty(),
             current_scope_nx: SymbolIndex::new(0),
             next_macro_scope_id: 0,
+            macro_depth: 0,
+            macro_depth_exceeded: false,
             test_elements: vec![],
             source_map: SourceMap::default(),
             import_stack: vec![],
@@ -358,6 +365,8 @@ impl CodegenContext {
     fn next_pass(&mut self) {
         self.pass_idx += 1;
         self.next_macro_scope_id = 0;
+        self.macro_depth = 0;
+        self.macro_depth_exceeded = false;
 
         log::trace!("\n* NEXT PASS ({}) *", self.pass_idx);
         self.segments.values_mut().for_each(|s| s.reset());
@@ -544,6 +553,10 @@ impl CodegenContext {
     fn emit_tokens(&mut self, tokens: &[Token]) -> CoreResult<()> {
         let mut errors = Diagnostics::default();
         for token in tokens {
+            if self.macro_depth_exceeded {
+                // A macro that keeps invoking itself: don't try anything else, this pass is over
+                break;
+            }
             if let Err(result) = self.emit_token(token) {
                 errors.extend(result);
             }
@@ -1097,6 +1110,18 @@ impl CodegenContext {
                         .expect_args(name.span, args.len(), def.args.len())
                         .map_err(|e| self.map_evaluation_error(e))?;
 
+                    // A macro may invoke other macros, and even itself, but not without end
+                    if self.macro_depth >= MAX_MACRO_DEPTH {
+                        self.macro_depth_exceeded = true;
+                        return Err(Diagnostic::error()
+                            .with_message(format!(
+                                "macro '{}' is invoked more than {} levels deep",
+                                name.data, MAX_MACRO_DEPTH
+                            ))
+                            .with_labels(vec![name.span.to_label()])
+                            .into());
+                    }
+
                     let macro_scope =
                         Identifier::new(format!("$macro_{}", self.next_macro_scope_id));
                     self.next_macro_scope_id += 1;
@@ -1111,7 +1136,8 @@ impl CodegenContext {
                         );
                     }
 
-                    self.with_scope(&macro_scope, None, |s| {
+                    self.macro_depth += 1;
+                    let result = self.with_scope(&macro_scope, None, |s| {
                         for (idx, arg_name) in def.args.iter().enumerate() {
                             // Regardless if evaluation succeeded, we should create the macro argument symbol here, because
                             // it will be undefined otherwise
@@ -1132,7 +1158,9 @@ impl CodegenContext {
                         }
 
                         Ok(())
-                    })?;
+                    });
+                    self.macro_depth -= 1;
+                    result?;
                 } else {
                     self.undefined.insert(UndefinedSymbol {
                         scope_nx: self.current_scope_nx,
